@@ -697,6 +697,12 @@ func (i *interpreter) callSSA(caller *frame, callpos token.Pos, fn *ssa.Function
 			return nil
 		}
 		name := fn.String()
+		if strings.HasPrefix(name, "reflect.TypeFor[") {
+			// package-level reflect.Type values of marshalling code the harnesses never reach:
+			// a nil Type (any use of it panics loudly instead of computing something wrong)
+			fr.noteStub("reflect.TypeFor")
+			return iface{}
+		}
 		if ext := externals[name]; ext != nil {
 			if r := ext(fr, args); r != (useBody{}) {
 				return r
